@@ -44,6 +44,7 @@ def run(ctx):
         ctx.guard(console, ctx, cfg, fs)
         ctx.guard(width_source, ctx, cfg, fs)
         ctx.guard(term_gap, ctx, cfg, fs)
+        ctx.guard(split_whole, ctx, cfg, fs)
         ctx.guard(splitter, ctx, cfg, fs)
         import docwalk
         ctx.guard(docwalk.cursor_advance, ctx, cfg, fs, 'K.cursor', r'render_console$|Doc::first_line$')
@@ -291,6 +292,22 @@ def _read_locals(b, sw):
         if k == 'assign' and st['rv']['k'] == 'use' and op_place(st['rv']['op']):
             out.add(op_place(st['rv']['op'])[0])
     return out
+
+def split_whole(ctx, cfg, fs):
+    """every text fragment gets its own splitter, and styled documents store each style run as a fragment: a paragraph break can be the
+    very START of a fragment.  `split` hands the fragment to the splitter as it is - trimmed or otherwise prepared input loses
+    exactly those leading line breaks (and with them the end of the first paragraph in the short form)."""
+    b = ctx.look(fs.one(r'^buffer::splitter::split$'))
+    ok = False; desc = 'no Splitter aggregate'
+    for i, k, st in b.stmts():
+        if st['k'] == 'assign' and st['rv']['k'] == 'agg' and st['rv'].get('adt', '').endswith('splitter::Splitter'):
+            names = st['rv'].get('field_names') or []
+            if 'input' in names:
+                rs = provenance(b, st['rv']['fields'][names.index('input')], i, k, through=None)
+                ok = bool(rs) and all(r.kind == 'param' and not r.path for r in rs)
+                desc = sorted({(r.kind, r.what if r.kind != 'call' else r.call.name.split('::')[-1]) for r in rs})
+    calls = [c.name.split('::')[-1] for c in b.calls()]
+    ctx.ob('S.splitter', 'split:fragment-handed-over-whole', ok and not calls, 'split() builds the Splitter over its parameter itself (%s; calls made: %s)' % (desc, calls or 'none'), where=b.where(), cfg=cfg)
 
 def width_source(ctx, cfg, fs):
     m = ctx.look(fs.one(r'buffer::console::<impl buffer::Doc>::monochrome$'))
